@@ -250,7 +250,7 @@ func (ro *Roles) schedulableAgreement(r *Report, rule string) {
 	r.Anchor("schedulable predicate", FuncName(is))
 	prefix := FuncName(ro.Admit) + "("
 	// per action: does the accept function reject?
-	acc := w.EnumPaths(ro.Accept, EnumOpts{Inline: true})
+	acc := w.EnumPaths(ro.Accept, EnumOpts{Inline: true, Opaque: w.statelessCallee})
 	sch := w.EnumPaths(is, EnumOpts{})
 	r.Count("paths", len(acc.Paths)+len(sch.Paths))
 	rejects := map[string]bool{}
